@@ -216,11 +216,12 @@ def call_name(call):
 
 
 def calls_in(node, name=None, into_nested=True):
+    """Call nodes inside `node` in source order."""
     it = ast.walk(node) if into_nested else walk_local(node)
-    for n in it:
-        if isinstance(n, ast.Call) and (name is None or call_name(n) == name
-                                        or (call_name(n) or '').split('.')[-1] == name):
-            yield n
+    found = [n for n in it if isinstance(n, ast.Call) and (name is None or call_name(n) == name
+                                                         or (call_name(n) or '').split('.')[-1] == name)]
+    found.sort(key=lambda c: (getattr(c, 'lineno', 0), getattr(c, 'col_offset', 0)))
+    return iter(found)
 
 
 def text(node):
